@@ -197,3 +197,16 @@ Print Assumptions C17_symbol_ranges_valid_core.
 Print Assumptions C17_ranges_come_from_ast_core.
 Print Assumptions C17_pipeline_core.
 Print Assumptions C17_pipeline_nonvacuous.
+
+(** ---- EVERY diagnostic of the pipeline (proofs/PipelineDiagnostics.v): [Pipeline.an_diagnostics w] = [Indexer.diagnostics w]
+    = the syntax errors of every workspace file, then the index diagnostics.  For every analysis that yields a Core
+    workspace every diagnostic range is valid in the texts of the analysis: names a workspace file, lo <= hi <= length,
+    both ends on character boundaries.  (Syntax errors: the ranges the modelled parser reports for the file's text, C02 +
+    the tree part above; index diagnostics: C17_pipeline_core.) *)
+From TG.Proofs Require PipelineDiagnostics.
+Theorem C17_pipeline_diagnostics : forall pfuel cfuel files root a w,
+  Pipeline.analyze pfuel cfuel files root = Some a -> Pipeline.an_core a = AstToCore.Ok w ->
+  forall d, In d (Pipeline.an_diagnostics w) ->
+    range_valid (BridgeSymbol.an_texts a) (mkFR (CoreAst.r_file (fst d)) (CoreAst.r_lo (fst d)) (CoreAst.r_hi (fst d))) = true.
+Proof. exact PipelineDiagnostics.c17_pipeline_diagnostics. Qed.
+Print Assumptions C17_pipeline_diagnostics.
